@@ -123,6 +123,7 @@ Definition lua_op (st : lua_state) (op : list tok) : list tok * lua_state :=
   | ((s, pend), ca) =>
     let plain := match srv_op2 (s, pend) op with (o, sp) => (o, (sp, ca)) end in
     match op with
+    | TB name :: TB _ :: _ => if beq name (bs "NOTE") then ([], st) else plain
     | TB name :: TI c :: TI t :: ft =>
         if beq name (bs "CMD") then
           match dec_frame (S (length ft)) ft with
